@@ -147,9 +147,11 @@ fn gen_text(rng: &mut Rng, n_tokens: u64) -> String {
         };
         // a '#' that is the first non-blank character of a line would start a directive: keep it mid-line
         let _ = i;
+        // (whitespace and comments in front of it do not count, so a token is put right in front of it)
         if piece.starts_with('#') {
             let line_start = s.rfind('\n').map(|p| p + 1).unwrap_or(0);
-            if s[line_start..].chars().all(|c| c == ' ' || c == '\t') {
+            let before = &s[line_start..];
+            if before.chars().all(|c| c == ' ' || c == '\t') || before.contains("*/") || before.contains("/*") || s.contains("/*") {
                 s.push_str("a ");
             }
         }
